@@ -1,5 +1,6 @@
 //! srvsim — the real server on simulated byte streams with raw peers.
 
+pub mod batch;
 pub mod model;
 pub mod single;
 pub mod stream;
